@@ -27,10 +27,40 @@ func CopyMessage(out, in interface{}) error {
 		return fmt.Errorf("destination for copy is not a proto.Message: %T; use a custom cloner", in)
 	}
 
-	pmOut.Reset()
-	// This will check that types are compatible and return an error if not.
-	// Unlike proto.Merge, this allows one or the other to be a dynamic message.
-	return dynamic.TryMerge(pmOut, pmIn)
+	_, inDyn := pmIn.(*dynamic.Message)
+	_, outDyn := pmOut.(*dynamic.Message)
+	if !inDyn && !outDyn {
+		pmOut.Reset()
+		// This will check that types are compatible and return an error if not.
+		// For two generated messages it is proto.Merge, which copies deeply.
+		return dynamic.TryMerge(pmOut, pmIn)
+	}
+
+	// When a dynamic message is involved, dynamic.TryMerge is a merge and not a
+	// deep copy: byte slices and nested messages are handed over by reference
+	// and (dynamic to dynamic) unrecognized fields are skipped. So copy through
+	// the wire form instead, after checking that the types agree.
+	if nameIn, nameOut := MessageName(pmIn), MessageName(pmOut); nameIn != nameOut {
+		return fmt.Errorf("cannot copy a %q into a %q", nameIn, nameOut)
+	}
+	b, err := proto.Marshal(pmIn)
+	if err != nil {
+		return err
+	}
+	return proto.Unmarshal(b, pmOut) // resets pmOut first
+}
+
+// MessageName returns the fully-qualified name of the given message's type,
+// also for dynamic messages. It returns "" for a dynamic message that has no
+// descriptor.
+func MessageName(m proto.Message) string {
+	if dm, ok := m.(*dynamic.Message); ok {
+		if dm == nil || dm.GetMessageDescriptor() == nil {
+			return ""
+		}
+		return dm.GetMessageDescriptor().GetFullyQualifiedName()
+	}
+	return proto.MessageName(m)
 }
 
 // CloneMessage returns a copy of the given value.
@@ -38,6 +68,21 @@ func CloneMessage(m interface{}) (interface{}, error) {
 	pm, ok := m.(proto.Message)
 	if !ok {
 		return nil, fmt.Errorf("value to clone is not a proto.Message: %T; use a custom cloner", m)
+	}
+
+	if dm, ok := pm.(*dynamic.Message); ok {
+		// proto.Clone of a dynamic message is shallow below the first level and
+		// drops unrecognized fields; use it only to get an instance with the same
+		// descriptor, factory and registry, then fill it from the wire form.
+		b, err := dm.Marshal()
+		if err != nil {
+			return nil, err
+		}
+		clone := proto.Clone(dm).(*dynamic.Message)
+		if err := clone.Unmarshal(b); err != nil { // resets first
+			return nil, err
+		}
+		return clone, nil
 	}
 
 	// this does a proper deep copy
